@@ -344,3 +344,22 @@ Theorem C03_grant_frame :
     checkCapability (with_caps d S') c2 f = checkCapability d c2 f.
 Proof. exact grant_frame. Qed.
 Print Assumptions C03_grant_frame.
+
+(* ... and over whole edit histories of the account's set (IrcUser.addCapability
+   / removeCapability in any order, failing edits included): if no edit touches
+   an element the question about c2 reads, the answer for c2 after the history
+   is the answer before it. *)
+Theorem C03_history_frame :
+  forall d u es c2 f,
+    d_user d = Some u ->
+    (forall e x, In e es -> queried c2 x -> ~ touched (snd e) x) ->
+    checkCapability (with_caps d (set_history true es (u_caps u))) c2 f = checkCapability d c2 f.
+Proof. exact history_frame. Qed.
+Print Assumptions C03_history_frame.
+
+(* a successful removeCapability(c) leaves (folded) c out of the set and every other element as it was *)
+Theorem C03_remove_effect :
+  forall S c S', cs_remove S c = Ok S' ->
+    smem (fold c) S' = false /\ forall x, x <> fold c -> smem x S' = smem x S.
+Proof. intros S c S' H. split; [exact (cs_remove_gone S c S' H)|intros x Hx; exact (cs_remove_elsewhere S c S' x H Hx)]. Qed.
+Print Assumptions C03_remove_effect.
